@@ -49,7 +49,7 @@ func init() {
 				okCmp := false
 				for _, g := range fi.Guards(ret) {
 					be, ok := ast.Unparen(g.Expr).(*ast.BinaryExpr)
-					if !ok || g.Kind != "bool" || g.Neg || be.Op != token.EQL {
+					if !ok || g.Kind != "bool" || !((!g.Neg && be.Op == token.EQL) || (g.Neg && be.Op == token.NEQ)) {
 						continue
 					}
 					side := func(e ast.Expr) string {
@@ -88,7 +88,7 @@ func init() {
 				okLoop := false
 				if loop != nil {
 					if li := fi.loopShape(loop); li != nil && li.v == iv && li.ascending && !li.inclusive && li.from == "0" {
-						if nf := fi.isCall(li.boundExpr, "go/types.Struct.NumFields"); nf != nil && fi.varOf(recvOf(nf)) == st {
+						if nf := fi.isCall(fi.deref(li.boundExpr), "go/types.Struct.NumFields"); nf != nil && fi.varOf(recvOf(nf)) == st {
 							okLoop = true
 						}
 					}
@@ -197,7 +197,7 @@ func init() {
 					okLoop := false
 					if loop, _ := sp.enclosingLoop(cl).(*ast.ForStmt); loop != nil {
 						if li := sp.loopShape(loop); li != nil && li.v == iv && li.ascending && !li.inclusive && li.from == "0" {
-							if nf := sp.isCall(li.boundExpr, "go/types.Struct.NumFields"); nf != nil && sp.varOf(recvOf(nf)) == st {
+							if nf := sp.isCall(sp.deref(li.boundExpr), "go/types.Struct.NumFields"); nf != nil && sp.varOf(recvOf(nf)) == st {
 								okLoop = len(sp.loopExits(loop)) == 0
 							}
 						}
@@ -294,7 +294,7 @@ func init() {
 						kv := el.(*ast.KeyValueExpr)
 						switch kv.Key.(*ast.Ident).Name {
 						case "Parent":
-							ec := fo.isCall(kv.Value, "go/types.Pointer.Elem")
+							ec := fo.isCall(fo.deref(kv.Value), "go/types.Pointer.Elem")
 							ok2 := false
 							if ec != nil {
 								if d := fo.defOf(recvOf(ec)); d != nil && d.idx == 0 {
@@ -351,6 +351,16 @@ func init() {
 												for _, g := range fo.Guards(fd.node) {
 													if g.Kind == "typecase" && !g.Neg && len(g.Vals) == 1 && types.ExprString(g.Vals[0]) == "*types.Pointer" {
 														in = true
+													}
+													// comma-ok form: if p, isPtr := X.Underlying().(*types.Pointer); isPtr
+													if g.Kind == "bool" && !g.Neg {
+														if gv := fo.varOf(g.Expr); gv != nil {
+															for _, gd := range fo.defs[gv] {
+																if ta, ok := ast.Unparen(gd.rhs).(*ast.TypeAssertExpr); ok && gd.idx == 1 && types.ExprString(ta.Type) == "*types.Pointer" {
+																	in = true
+																}
+															}
+														}
 													}
 												}
 												flagOK = flagOK && id != nil && id.Name == "true" && in
@@ -412,7 +422,7 @@ func init() {
 			}
 		})
 
-	register("C13.R1", "syntactic whitelist of processValue: the unconditional-accept list contains no call, unary or function-literal node; calls are accepted only as conversions, unary expressions only when not a receive; unknown node kinds are rejected; any rejection fails the value",
+	register("C13.R1", "syntactic whitelist of processValue: the unconditional-accept list contains no call, unary or function-literal node; calls are accepted only as conversions, unary expressions only when not a receive; unknown node kinds are rejected; the walk is pruned only where it rejects; any rejection fails the value",
 		func(c *Ctx, r *R) {
 			fi := r.Need(c.Fn(c.W, "processValue"), "processValue")
 			if fi == nil {
@@ -445,87 +455,114 @@ func init() {
 				r.Bad("inspect/type-switch", insp.Pos(), "node-kind switch not found at the top of the callback")
 				return
 			}
-			// the flag variable: assigned false in rejecting branches, tested after Inspect
+			// the flag: a bool variable captured by the callback, initialised true outside, only ever set false inside
 			var flag *types.Var
-			rejecting := func(body []ast.Stmt) bool {
-				setFalse, retFalse := false, false
-				for _, s := range body {
-					if as, ok := s.(*ast.AssignStmt); ok && len(as.Lhs) == 1 {
-						if id, ok := ast.Unparen(as.Rhs[0]).(*ast.Ident); ok && id.Name == "false" {
-							v := fi.varOf(as.Lhs[0])
-							if flag == nil {
-								flag = v
-							}
-							if v == flag {
-								setFalse = true
-							}
-						}
-					}
-					if ret, ok := s.(*ast.ReturnStmt); ok && len(ret.Results) == 1 {
-						if id, ok := ast.Unparen(ret.Results[0]).(*ast.Ident); ok && id.Name == "false" {
-							retFalse = true
+			ast.Inspect(lit.Body, func(nd ast.Node) bool {
+				if as, ok := nd.(*ast.AssignStmt); ok && len(as.Lhs) == 1 && as.Tok == token.ASSIGN {
+					if id, ok := ast.Unparen(as.Rhs[0]).(*ast.Ident); ok && id.Name == "false" {
+						if v := fi.varOf(as.Lhs[0]); v != nil && flag == nil {
+							flag = v
 						}
 					}
 				}
-				return setFalse && retFalse
+				return true
+			})
+			if flag == nil {
+				r.Bad("flag", lit.Pos(), "the callback never records a rejection")
+				return
 			}
+			isFalse := func(e ast.Expr) bool { id, ok := ast.Unparen(e).(*ast.Ident); return ok && id.Name == "false" }
+			isTrue := func(e ast.Expr) bool { id, ok := ast.Unparen(e).(*ast.Ident); return ok && id.Name == "true" }
+			setsFalse := func(s ast.Stmt) bool {
+				as, ok := s.(*ast.AssignStmt)
+				return ok && len(as.Lhs) == 1 && fi.varOf(as.Lhs[0]) == flag && isFalse(as.Rhs[0])
+			}
+			// rejects(list): conditions (nil = unconditional) under which the flag is cleared
+			type rej struct{ cond ast.Expr }
+			rejects := func(list []ast.Stmt) []rej {
+				var out []rej
+				for _, s := range list {
+					if setsFalse(s) {
+						out = append(out, rej{nil})
+					}
+					if is, ok := s.(*ast.IfStmt); ok && is.Else == nil {
+						for _, s2 := range is.Body.List {
+							if setsFalse(s2) {
+								c := is.Cond
+								// `if _, isFunc := x.(T); isFunc` → the assertion is the condition
+								if v := fi.varOf(c); v != nil {
+									for _, d := range fi.defs[v] {
+										if d.idx == 1 && d.rhs != nil {
+											c = d.rhs
+										}
+									}
+								}
+								out = append(out, rej{c})
+							}
+						}
+					}
+				}
+				return out
+			}
+			// every return of the callback: false only right after clearing the flag; otherwise true or the flag itself
+			ast.Inspect(lit.Body, func(nd ast.Node) bool {
+				if fl, ok := nd.(*ast.FuncLit); ok && fl != lit {
+					return false
+				}
+				ret, ok := nd.(*ast.ReturnStmt)
+				if !ok || len(ret.Results) != 1 {
+					return true
+				}
+				switch {
+				case isTrue(ret.Results[0]), fi.varOf(ret.Results[0]) == flag:
+				case isFalse(ret.Results[0]):
+					paired := false
+					for _, s := range fi.precedingSimple(ret, fi.parent[ret]) {
+						if setsFalse(s) {
+							paired = true
+						}
+					}
+					r.Check(paired, "prune-only-on-reject@"+itoa(len(r.Obs)), ret.Pos(), "the walk is pruned (return false) only immediately after recording a rejection — otherwise nested calls/receives would go unexamined")
+				default:
+					r.Undecided("callback-return@"+itoa(len(r.Obs)), ret.Pos(), "unrecognised callback result %s", exprShort(ret.Results[0]))
+				}
+				return true
+			})
+			lastRet, _ := lit.Body.List[len(lit.Body.List)-1].(*ast.ReturnStmt)
+			okWalk := lastRet != nil && len(lastRet.Results) == 1 && (isTrue(lastRet.Results[0]) || fi.varOf(lastRet.Results[0]) == flag)
+			r.Check(okWalk, "walk-continues", lit.Pos(), "accepted nodes are descended into")
 			hasDefault, okCall, okUnary := false, false, false
 			for _, s := range sw.Body.List {
 				cc := s.(*ast.CaseClause)
+				rs := rejects(cc.Body)
 				if cc.List == nil {
 					hasDefault = true
-					r.Check(rejecting(cc.Body), "default-rejects", cc.Pos(), "unknown node kinds fail the value and stop the walk")
+					r.Check(len(rs) >= 1 && rs[0].cond == nil, "default-rejects", cc.Pos(), "unknown node kinds fail the value")
 					continue
 				}
-				names := []string{}
 				for _, e := range cc.List {
-					names = append(names, types.ExprString(e))
-				}
-				if len(cc.Body) == 0 {
-					for _, nm := range names {
-						if nm == "nil" {
-							continue
-						}
-						r.Check(allowed[nm], "accept:"+nm, cc.Pos(), "unconditionally accepted node kind %s cannot call a function, receive from a channel or run code", nm)
+					nm := types.ExprString(e)
+					if nm == "nil" {
+						continue
 					}
-					continue
-				}
-				for _, nm := range names {
-					switch nm {
-					case "*ast.CallExpr":
-						// if _, isFunc := info.TypeOf(expr.Fun).(*types.Signature); isFunc { reject }
-						for _, st := range cc.Body {
-							is, ok := st.(*ast.IfStmt)
-							if !ok || !rejecting(is.Body.List) || is.Else != nil {
-								continue
-							}
-							fv := fi.varOf(is.Cond)
-							if fv == nil {
-								continue
-							}
-							for _, d := range fi.defs[fv] {
-								ta, ok := ast.Unparen(d.rhs).(*ast.TypeAssertExpr)
-								if !ok || d.idx != 1 || types.ExprString(ta.Type) != "*types.Signature" {
-									continue
-								}
-								tc := fi.isCall(ta.X, "go/types.Info.TypeOf")
-								if tc == nil {
-									continue
-								}
-								if sel, ok := ast.Unparen(tc.Args[0]).(*ast.SelectorExpr); ok && sel.Sel.Name == "Fun" {
-									okCall = fi.unconditionalIn(is, cc)
+					switch {
+					case len(rs) == 0:
+						r.Check(allowed[nm], "accept:"+nm, cc.Pos(), "unconditionally accepted node kind %s cannot call a function, receive from a channel or run code", nm)
+					case nm == "*ast.CallExpr":
+						for _, rj := range rs {
+							if ta, ok := ast.Unparen(rj.cond).(*ast.TypeAssertExpr); ok && types.ExprString(ta.Type) == "*types.Signature" {
+								if tc := fi.isCall(ta.X, "go/types.Info.TypeOf"); tc != nil {
+									if sel, ok := ast.Unparen(tc.Args[0]).(*ast.SelectorExpr); ok && sel.Sel.Name == "Fun" {
+										okCall = len(rs) == 1
+									}
 								}
 							}
 						}
-					case "*ast.UnaryExpr":
-						for _, st := range cc.Body {
-							is, ok := st.(*ast.IfStmt)
-							if !ok || !rejecting(is.Body.List) || is.Else != nil {
-								continue
-							}
-							if be, ok := ast.Unparen(is.Cond).(*ast.BinaryExpr); ok && be.Op == token.EQL {
+					case nm == "*ast.UnaryExpr":
+						for _, rj := range rs {
+							if be, ok := ast.Unparen(rj.cond).(*ast.BinaryExpr); ok && be.Op == token.EQL {
 								if sel, ok := ast.Unparen(be.X).(*ast.SelectorExpr); ok && sel.Sel.Name == "Op" && types.ExprString(be.Y) == "token.ARROW" {
-									okUnary = fi.unconditionalIn(is, cc)
+									okUnary = len(rs) == 1
 								}
 							}
 						}
@@ -535,13 +572,20 @@ func init() {
 				}
 			}
 			r.Check(hasDefault, "default-present", sw.Pos(), "the node-kind switch has a default")
-			r.Check(okCall, "call-only-conversion", sw.Pos(), "a call node is rejected when its Fun has a function signature (only conversions pass)")
-			r.Check(okUnary, "unary-not-receive", sw.Pos(), "a unary node is rejected when its operator is <-")
-			// after the switch the callback keeps walking (return true) so nested nodes are examined
-			lastRet, _ := lit.Body.List[len(lit.Body.List)-1].(*ast.ReturnStmt)
-			okWalk := lastRet != nil && len(lastRet.Results) == 1 && types.ExprString(lastRet.Results[0]) == "true"
-			r.Check(okWalk, "walk-continues", lit.Pos(), "accepted nodes are descended into")
-			// the walk covers the stored expression and its failure fails the call
+			r.Check(okCall, "call-only-conversion", sw.Pos(), "a call node is rejected exactly when its Fun has a function signature (only conversions pass)")
+			r.Check(okUnary, "unary-not-receive", sw.Pos(), "a unary node is rejected exactly when its operator is <-")
+			// the flag starts true and its final value decides: success is dominated by it (directly, or
+			// through a single-call-site helper that returns it)
+			okInit := false
+			for _, d := range fi.defs[flag] {
+				if d.kind == "define" && isTrue(d.rhs) {
+					okInit = true
+				}
+				if d.kind == "assign" && !isFalse(d.rhs) {
+					r.Bad("flag-reset", d.node.Pos(), "the whitelist flag is set back to a non-false value")
+				}
+			}
+			r.Check(okInit, "flag-init", fi.Decl.Pos(), "the whitelist flag is initialised true and only ever set false")
 			n := 0
 			for i, ret := range fi.returnsOf() {
 				if len(ret.Results) != 2 || fi.isNilIdent(ret.Results[0]) {
@@ -550,11 +594,25 @@ func init() {
 				n++
 				ok := false
 				for _, g := range fi.Guards(ret) {
-					if g.Kind == "bool" && fi.varOf(g.Expr) == flag && flag != nil && !g.Neg && g.At.Pos() > insp.End() {
+					if g.Kind != "bool" || g.Neg {
+						continue
+					}
+					if fi.varOf(g.Expr) == flag && g.At.Pos() > insp.End() {
 						ok = true
 					}
+					if cl, isCall := ast.Unparen(g.Expr).(*ast.CallExpr); isCall {
+						if h := c.linked[cl]; h != nil && fi.within(insp, h.Decl) {
+							all := true
+							for _, hr := range h.returnsOf() {
+								if len(hr.Results) != 1 || fi.varOf(hr.Results[0]) != flag {
+									all = false
+								}
+							}
+							ok = all
+						}
+					}
 				}
-				r.Check(ok, "success#"+itoa(i)+"/whitelist-passed", ret.Pos(), "success is dominated by the whitelist flag tested after the walk")
+				r.Check(ok, "success#"+itoa(i)+"/whitelist-passed", ret.Pos(), "success is dominated by the whitelist verdict computed by the walk")
 				var exprV ast.Expr
 				if u, ok := ast.Unparen(ret.Results[0]).(*ast.UnaryExpr); ok {
 					if cl, ok := u.X.(*ast.CompositeLit); ok {
@@ -568,26 +626,6 @@ func init() {
 				r.Check(exprV != nil && fi.sameExpr(exprV, insp.Args[0]), "success#"+itoa(i)+"/same-expression", ret.Pos(), "the expression stored is the one that was walked")
 			}
 			r.Floor("success returns of processValue", n, 1)
-			// the flag starts true
-			if flag != nil {
-				okInit := false
-				for _, d := range fi.defs[flag] {
-					if d.kind == "define" {
-						if id, ok := ast.Unparen(d.rhs).(*ast.Ident); ok && id.Name == "true" {
-							okInit = true
-						}
-					}
-				}
-				r.Check(okInit, "flag-init", fi.Decl.Pos(), "the whitelist flag is initialised true and only ever set false")
-				for _, d := range fi.defs[flag] {
-					if d.kind == "assign" {
-						id, _ := ast.Unparen(d.rhs).(*ast.Ident)
-						if id == nil || id.Name != "false" {
-							r.Bad("flag-reset", d.node.Pos(), "the whitelist flag is set back to a non-false value")
-						}
-					}
-				}
-			}
 		})
 
 	register("C13.R2", "interface refusals: wire.Value rejects an argument whose underlying type is an interface; wire.InterfaceValue requires types.Implements(type of arg 1, interface of arg 0) and provides that interface type",
